@@ -196,7 +196,8 @@ pub fn run(a: &ShardArgs) -> serde_json::Value {
                     v.key.as_str(),
                     "retries-field" | "delay" | "over-budget" | "spurious-retry" | "missing-retry"
                         | "over-limit" | "not-work-conserving" | "dispatch-after-failure"
-                        | "cut-without-final-failure" | "user-code-over-limit"
+                        | "cut-without-final-failure" | "user-code-over-limit" | "ingest-after-error"
+                        | "not-attempted"
                 );
                 if relevant && !found && violations.len() < 30 {
                     found = true;
